@@ -7,6 +7,8 @@ import ast
 import re
 
 from ..astutil import call_attr, calls_in, unparse, walk_local
+from ..cfg import CFG
+from ..dataflow import resolved_text
 from ..report import Finding, Report
 from ..srcindex import AnalysisError, Index
 
@@ -109,9 +111,19 @@ def check(idx: Index, rep: Report, tier: str) -> str:
     pop_loops = sorted(pop_loops, key=span)[:1]
     if len(push_loops) != 1 or len(pop_loops) != 1:
         raise AnalysisError(f"{f.fq}: push / pop loops not found")
-    pushed = unparse(push_loops[0].iter)
-    popped = unparse(pop_loops[0].iter)
-    if popped == f"reversed({pushed})":
+    cfg3 = CFG(f.node)
+
+    def _coll(e: ast.AST, at: ast.AST) -> str:
+        t_ = resolved_text(cfg3, e, cfg3.node_of(at))
+        while True:
+            m_ = re.fullmatch(r"(?:tuple|list)\((.*)\)", t_)
+            if not m_:
+                return t_
+            t_ = m_.group(1)
+
+    pushed = _coll(push_loops[0].iter, push_loops[0])
+    popped = _coll(pop_loops[0].iter, pop_loops[0])
+    if popped == f"reversed({pushed})" or (re.fullmatch(r"(.*)\[::-1\]", popped) and popped[:-6] == pushed):
         r.ok(f.fq + ":order", f"{f.loc} push over `{pushed}`, pop over reversed of the same collection")
     else:
         r.fail(f.fq + ":order", Finding("C21.R3", f.fq, "push-pop-order", f"registers are pushed in the order of `{pushed}` but popped in the order of `{popped}`: when the two orders differ, saved values are restored into the wrong registers", f.loc))
